@@ -1,3 +1,35 @@
+"""compiled-runtime half of C06: host-side invocation log (ordered io_callback inside the jitted rollout) vs the executed
+rows of the record vs the extracted model's rows; masked slots and the step-0 supervisor branch execute nothing."""
+import random
+from collections import Counter
+from . import compiledlib as cl, c07, asynclib as al
+
+
 def run(chk):
-    """compiled-runtime half of C06 (filled in with the M3 harness)"""
-    chk.notes.append("compiled-runtime half pending in this build")
+    quick = chk.tier == "quick"
+    jobs = c07.make_jobs(chk, 4 if quick else 24)
+    for j in jobs: j["id"] = "c06c:" + j["id"]
+    res = cl.run_jobs(jobs, nproc=4 if quick else 10)
+    insts = []; meta = []
+    for j in jobs:
+        r = res.get(j["id"], dict(error="MISSING")); cfg = j["cfg"]
+        case = dict(cfg=cfg, source=j["source"], mode=j["mode"], prune=j["prune"], seed=j.get("seed"), tmax=j.get("tmax"), steps=j.get("steps"), runtime="compiled")
+        if "error" in r or "graph_error" in r: chk.feat("compiled:rejected-or-error"); continue
+        chk.case((repr(cfg), j["mode"], j["prune"], "compiled"), ["compiled", j["mode"]] + al.features(cfg), None)
+        names = sorted(cfg["nodes"]); cn = list(cfg["conns"])
+        for e, ep in enumerate(r["episodes"]):
+            if "rows" not in ep: chk.feat("init_record-unavailable"); continue
+            chk.traces_impl += 1
+            calls = Counter((c[0], c[1]) for c in ep["calls"])
+            executed = Counter((n, row[0]) for n in names for row in cl.impl_rows(ep, n))
+            if calls != executed:
+                extra = [k for k in calls if calls[k] != executed.get(k, 0)] + [k for k in executed if k not in calls]
+                k0 = extra[0]
+                sig = "compiled-step-executed-more-than-once" if calls.get(k0, 0) > 1 else ("compiled-step-not-executed" if calls.get(k0, 0) == 0 else "compiled-unscheduled-step-executed")
+                chk.violation(sig, f"episode {e}: {k0[0]}[{k0[1]}] executed {calls.get(k0, 0)} times, recorded/scheduled {executed.get(k0, 0)} times", case)
+            insts.append((r["insts"][e], names, cn, cfg)); meta.append((j, r, e, case, calls))
+    if insts:
+        for (j, r, e, case, calls), m in zip(meta, cl.run_model(insts)):
+            mod = Counter((n, row[0]) for n in m["rows"] for row in m["rows"][n])
+            if mod != calls and not any(v["signature"].startswith("compiled-") for v in chk.violations):
+                chk.broke("correspondence:M3-vs-Graph(invocations)", f"job {j['id']} episode {e}")
